@@ -507,6 +507,8 @@ def _follow_delegation(model: Model, f):
         tgt = model.lookup_symbol(f.module, name) if isinstance(call.func, ast.Name) else None
         if tgt is None and isinstance(call.func, ast.Attribute) and isinstance(call.func.value, ast.Name) and f.cls is not None and call.func.value.id in ("self", "cls", f.cls.name):
             tgt = f.cls.resolve(name)
+        if tgt is None and isinstance(call.func, ast.Attribute) and isinstance(call.func.value, ast.Name) and call.func.value.id in f.module.imports:
+            tgt = model.lookup_symbol(f.module, call.func.value.id + "." + name)      # ``module_alias.helper(..)``
         from ..model import FunctionInfo as _FI
         if not isinstance(tgt, _FI) or tgt.name == f.name and tgt is f:
             return f
@@ -578,13 +580,21 @@ def x4(model: Model, rep: Report):
         flat_of = v[2][0]
     elif v[0] == "call" and isinstance(v[1], tuple) and len(v[1]) > 2 and v[1][0] == "attr" and (v[1][2] in ("flatten", "ravel") and not v[2] or v[1][2] == "reshape" and v[2] == (lin({}, Fraction(-1)),)):
         flat_of = v[1][1]
-    calls = find_calls(flat_of, f.name) if flat_of is not None else []
+    # the rows are asked of the method itself (which may have become a thin wrapper of the function read above) or of that function directly
+    f0 = E.resolve("create_sliced_arrays")
+    calls, callee = [], f
+    for cand in (f0, f):
+        calls = find_calls(flat_of, cand.name) if flat_of is not None else []
+        if calls:
+            callee = cand
+            break
+    cn = [p_ for p_ in callee.param_names if p_ not in ("self", "cls")]
     def _args_of(c):
         d = dict(c[3])
         for i_, a_ in enumerate(c[2]):
-            d[f.param_names[i_]] = a_
+            d[cn[i_]] = a_
         return d
-    ok = bool(calls) and flat_of == calls[0] and _args_of(calls[0]) == {f.param_names[0]: sym(g.param_names[0]), f.param_names[1]: sym(g.param_names[1]), f.param_names[2]: sym(g.param_names[2])}
+    ok = bool(calls) and flat_of == calls[0] and _args_of(calls[0]) == {cn[0]: sym(g.param_names[0]), cn[1]: sym(g.param_names[1]), cn[2]: sym(g.param_names[2])}
     rep.check(ok, "C12.X4", "RepetitionExperimentKernel.create_sliced_array", g.loc, found=show(v), required="np.concatenate(create_sliced_arrays(int_list, cycle_length, repetitions))", what="flattened slicing differs", detail="flat")
     # cycle length
     c = E.resolve("kernel_cycle_length")
